@@ -71,6 +71,7 @@ TYPES = [
     T("map", T("string"), T("vector", T("vector", T("Cls", const=True, suf="&"), ns=("std",)), ns=("std",)), ns=("std",)),
     T("Box", T("Cls", suf="@"), T("size_t")), T("Box", T("Box", T("Box", T("int")), suf="*"), ns=("a",), suf="*"), T("This"), T("T"), T("T", suf="&", const=True),
     T("size_t"), T("Value", ns=("T",)), T("Opt", T("Value", ns=("This",)), ns=("std",)),
+    T("vector", T("double"), ns=("std",), suf="@"), T("map", T("int"), T("vector", T("Cls"), ns=("std",), suf="@"), ns=("std",), const=True, suf="@"),
 ]
 NTY = len(TYPES)
 DEFAULTS = [None, "3", "-1.5e3", '"a, b; c"', "{1, 2, 3}", "a::Cls(1, x)", "std::vector<int>()", "a::b::kConst", "(2 + 3)", "'}'", "Foo<A, B>::bar[3]", '"two  spaces   and\\ttab"']
